@@ -14,6 +14,7 @@ never equal.
 """
 import ast
 import hashlib
+import re
 import time
 import sympy as sp
 from .report import AnalysisError
@@ -122,6 +123,21 @@ def mk_not(v):
     if name == "bor":
         return mk_bool("band", [mk_not(a) for a in v.args])
     return F("bnot")(v)
+
+
+def _strcat(parts):
+    """Ordered concatenation with adjacent literals merged; a single part is itself."""
+    out = []
+    for v in parts:
+        t = str(v)
+        if out and t[:1] in "'\"" and str(out[-1])[:1] in "'\"" and getattr(v, "is_Symbol", False) and getattr(out[-1], "is_Symbol", False):
+            try:
+                out[-1] = sym(repr(ast.literal_eval(str(out[-1])) + ast.literal_eval(t)))
+                continue
+            except Exception:
+                pass
+        out.append(v)
+    return out[0] if len(out) == 1 else F("strcat")(*out)
 
 
 def mk_bool(op, vals):
@@ -250,6 +266,28 @@ class PyVal:
         if isinstance(node, ast.BinOp):
             l, r = self._v(node.left, env), self._v(node.right, env)
             op = node.op
+            # string building: "a" + x, "%s_%s" % (x, y) and f"{x}_{y}" are one ordered concatenation
+            def is_cat(v):
+                return getattr(getattr(v, "func", None), "__name__", "") == "strcat"
+            def is_strlit(n):
+                return isinstance(n, ast.Constant) and isinstance(n.value, str)
+            def is_strsym(v):
+                return getattr(v, "is_Symbol", False) and str(v)[:1] in "'\""
+            if isinstance(op, ast.Add) and (is_strlit(node.left) or is_strlit(node.right) or is_cat(l) or is_cat(r) or is_strsym(l) or is_strsym(r)):
+                parts = (list(l.args) if is_cat(l) else [l]) + (list(r.args) if is_cat(r) else [r])
+                return _strcat(parts)
+            if isinstance(op, ast.Mod) and is_strlit(node.left) and re.fullmatch(r"(?:[^%]|%s)*", node.left.value):
+                args = list(node.right.elts) if isinstance(node.right, ast.Tuple) else [node.right]
+                pieces = re.split(r"(%s)", node.left.value)
+                if pieces.count("%s") == len(args) and not isinstance(node.right, (ast.Dict, ast.Starred)):
+                    parts = []
+                    for pc in pieces:
+                        if pc == "%s":
+                            v = self._v(args.pop(0), env)
+                            parts += list(v.args) if is_cat(v) else [v]
+                        elif pc:
+                            parts.append(sym(repr(pc)))
+                    return _strcat(parts)
             try:
                 if isinstance(op, ast.Add): return l + r
                 if isinstance(op, ast.Sub): return l - r
@@ -350,6 +388,8 @@ class PyVal:
             return F("dict")(*items) if items else sym("dict0")
         if isinstance(node, ast.JoinedStr):
             parts = [self._v(x.value, env) if isinstance(x, ast.FormattedValue) else sym(repr(x.value)) for x in node.values]
+            if all(not isinstance(x, ast.FormattedValue) or (x.conversion == -1 and x.format_spec is None) for x in node.values):
+                return _strcat(parts)
             return F("fstr")(*parts)
         return self._opaque(node, env)
 
